@@ -137,7 +137,7 @@ impl Conv2dHelper {
             let mut current_channel = Vec::with_capacity(ceil_div(self.input_channels, self.input_channel_block));
             let mut lic = 0; while lic < self.input_channels {
                 let uic = self.input_channels.min(lic + self.input_channel_block);
-                let mut spread = vec![0; self.input_channel_block * self.output_channel_block * self.image_width_block * self.image_height];
+                let mut spread = vec![0; self.input_channel_block * self.output_channel_block * self.image_width_block * self.image_height_block];
                 for oc in loc..uoc {
                     for ic in lic..uic {
                         for ki in 0..self.kernel_height {
@@ -175,7 +175,7 @@ impl Conv2dHelper {
             let mut current_channel = Vec::with_capacity(ceil_div(self.input_channels, self.input_channel_block));
             let mut lic = 0; while lic < self.input_channels {
                 let uic = self.input_channels.min(lic + self.input_channel_block);
-                let mut spread = vec![0.0; self.input_channel_block * self.output_channel_block * self.image_width_block * self.image_height];
+                let mut spread = vec![0.0; self.input_channel_block * self.output_channel_block * self.image_width_block * self.image_height_block];
                 for oc in loc..uoc {
                     for ic in lic..uic {
                         for ki in 0..self.kernel_height {
